@@ -392,6 +392,10 @@ class Oracle:
                 return ("jwt-time:%s" % ("accepted-outside" if o["ok"] else "rejected-inside"),
                         "CheckTime iat=%s exp=%s now=%s gave ok=%s" % (c["c"]["iat"], c["c"]["exp"], c["now"], o["ok"]))
             return None
+        if op in ("jwths", "jwtrs", "selfverify", "jwtany", "jwtrsfetch", "exchange") and o["ok"] and \
+                (c.get("hp") is None or c.get("cp") is None):
+            return (fam + ":accepted-unparsable-segment",
+                    "a token was accepted although encoding/json does not read its header or claims segment")
         if op == "jwths" and o["ok"] and c.get("hp") != c.get("pin"):
             return "jwt-hs:accepted-unpinned-header", "a token whose header is not the pinned one was accepted"
         if op == "jwths" and o["ok"] and c.get("cp") and all(abs(int(c["cp"][f])) <= 2 ** 62 for f in ("iat", "exp")) \
@@ -426,7 +430,14 @@ class Oracle:
                 return ("challenge:%s" % ("accepted-outside-window" if accepted else "genuine-rejected"),
                         "challenge of %d checked at %d with window %d gave %s" % (t0, now, w, accepted))
         elif op == "exchange":
-            pass
+            cp = c.get("cp")
+            if (not accepted and mu["class"] == "genuine" and cp and jwt_time_ok(cp, now) and int(c["ttl"]) > 0
+                    and all(not want or want == got for want, got in
+                            ((c.get("data", ""), cp["iss"]), (c.get("host", ""), cp["aud"]), (c.get("user", ""), cp["sub"])))
+                    and any(k["parse"] and k["sigok"] and k["type"] == "7373682d727361" and k["id"] == c["hp"]["kid"]
+                            and (int(k["nvb"]) <= 0 or now >= int(k["nvb"]) * NS) and now <= int(k["nva"]) * NS
+                            for k in (c.get("card") or [])[:1])):
+                return "exchange:genuine-rejected", "an access token issued for this issuer, audience and user was refused inside all its windows"
         elif op in ("sesscheck", "gatecheck"):
             if op == "gatecheck" and accepted and int(c["maxttl"]) > 0 and \
                     bool(o.get("refresh")) != (info["expires"] - now < int(c["maxttl"]) // 5):
